@@ -211,8 +211,21 @@ def hooks(log):
 
     def inc(self, step):
         pre = float(self._penalty)
+        try:
+            # the inputs of the threshold, recomputed with the expressions of increase_penalty (pure functions of the state)
+            aub, bub, aeq, beq = self.get_constraint_linearizations(self.x_best)
+            vd = max(np.linalg.norm(np.block([np.maximum(0.0, -bub), beq]))
+                     - np.linalg.norm(np.block([np.maximum(0.0, aub @ step - bub), aeq @ step - beq])), 0.0)
+            sq = self.sqp_fun(step)
+            lm = np.linalg.norm(np.block([self._lm_linear_ub, self._lm_linear_eq, self._lm_nonlinear_ub, self._lm_nonlinear_eq]))
+            ins = (float(F.TINY), float(lm), float(sq), float(vd), float(self._constants["penalty_increase_threshold"]),
+                   float(self._constants["penalty_increase_factor"]), pre)
+        except Exception:
+            ins = None
         out = o_inc(self, step)
         log["penalty"].append(("inc", pre, float(self._penalty)))
+        if ins is not None and all(v == v for v in ins):
+            log.setdefault("pinc", []).append((ins, float(self._penalty)))
         return out
 
     def dec(self):
@@ -362,15 +375,23 @@ def run(chk, rng, replay=None):
         n_centres += log.get("centres", 0)
         for it, mb, mw, pen in log.get("centre_fail", [])[:1]:
             specfail.append(("run", d, (it, f"the centre is not the interpolation point of least merit at the start of iteration {it}: merit {mb!r} vs {mw!r} (penalty {pen!r})")))
+        for ins, post in log.get("pinc", []):
+            reqs.append("pinc | " + " ".join(str(f2b(v)) for v in ins))
+            keys.append(("pinc", d, f2b(post), ins))
         for kind, pre, post in log["penalty"]:
             n_pen += 1
             if not (post >= 0.0 and np.isfinite(post)):
                 specfail.append(("run", d, (n_pen, f"penalty {post!r} after {kind}")))
+    n_pinc = 0
     a2 = driver(reqs) if reqs else []
     for (kind, d, got_idx, *rest), a in zip(keys, a2):
         if kind == "fit":
             if a != f"{got_idx[0]},{got_idx[1]}":
                 mism.append((d, ("initial (resolution, radius_final)", got_idx), a))
+        elif kind == "pinc":
+            n_pinc += 1
+            if a != str(got_idx):
+                mism.append((d, ("increase_penalty (inputs tiny, |multipliers|, sqp value, violation decrease, threshold, factor, penalty before): " + repr(rest[0]), b2f(got_idx)), repr(b2f(int(a)))))
         elif kind == "scan":
             if int(a.split(" ")[0]) != got_idx:
                 pts, tol = rest
@@ -402,7 +423,7 @@ def run(chk, rng, replay=None):
         "rule": "(i) radius/resolution rules on a real TrustRegion object: constants from _set_default_constants on the boundary lattice of their domains, radius_final over 30 decades incl. 0 and equal to radius_init, ratios incl. negative/huge/exactly at low_ratio and high_ratio, step norms 0..1e3 radii, 1..24 operations per case, compared bit-for-bit with Model/Radius.lean on Float; (ii) real minimize runs with every radius/resolution change, set_best_index scan and get_index_to_remove choice logged and replayed. Non-trivial: more than one operation / a real run; distinct by content.",
         "samples": [comp[-1]] if comp else [descs[-1]],
         "component_cases": len(comp), "real_runs": len(descs), "radius_ops_in_runs": n_ops, "best_index_scans": n_scans,
-        "index_to_remove_calls": n_removes, "penalty_updates": n_pen, "initial_radii_checked_against_the_bounds": n_init, "centre_checks_at_iteration_start": n_centres, "correspondence_mismatches": len(mism),
+        "index_to_remove_calls": n_removes, "penalty_updates": n_pen, "increase_penalty_outcomes_compared_bitwise_with_the_model": n_pinc, "initial_radii_checked_against_the_bounds": n_init, "centre_checks_at_iteration_start": n_centres, "correspondence_mismatches": len(mism),
         "real_runs_that_raised_something_else_than_ValueError": len(run_failures),
     })
     chk.assumptions += ["theorems are over exact rationals; binary64 satisfies the same order facts because rounding is monotone (fl(c*x) >= x for c >= 1) - checked on the implementation's own values in every case above",
@@ -423,7 +444,7 @@ def run(chk, rng, replay=None):
             rep["broken"] = info.get("problems")
         if mism:
             c, mine, model = mism[0]
-            rep.update({"correspondence": "TrustRegion radius rules / set_best_index / get_index_to_remove vs Model/Radius.lean",
+            rep.update({"correspondence": "TrustRegion radius rules / increase_penalty / set_best_index / get_index_to_remove vs Model/Radius.lean",
                         "case": c, "implementation": str(mine)[:500], "model": str(model)[:500]})
         chk.violation(rep, no_input=True)
     if run_failures and not chk.violations:
